@@ -28,6 +28,15 @@ static void checkNormalised(const DiscreteDistributionInterface& d, size_t n, co
     SYM_ASSERT_EQ(d.getProbability(c[k]), p[k], "probability looked up by class value differs"); SYM_ASSERT(d.getCategory(k) == c[k] && d.getProbability(k) == p[k], "indexed access differs from the vectors"); }
   (void)who;
 }
+// looking up a class's own value returns that class (so every class value lies inside the domain), and a value strictly inside the domain is found in the class whose interval contains it
+static void checkLookups(const DiscreteDistributionInterface& d, size_t n, const char* tag) {
+  Vdouble c = d.getCategories(), b = d.getBounds();
+  for (size_t k = 0; k < n; k++) { bool th = false; double v = 0; size_t idx = n;
+    try { v = d.getValueCategory(c[k]); idx = d.getCategoryIndex(c[k]); } catch (Exception&) { th = true; }
+    SYM_ASSERT(!th, "looking up a class's own value raised (the value lies outside the domain)"); SYM_ASSERT(v == c[k] && idx == k, "looking up a class's own value returns another class"); }
+  if (b.size() == n + 1) { double x = symd(string("lookup") + tag); SYM_ASSUME(x > b[0] && x < b[n]); size_t k = 0; while (k + 1 < n && !(x < b[k + 1])) k++;
+    SYM_ASSERT(d.getValueCategory(x) == c[k] && d.getCategoryIndex(x) == k, "lookup does not return the class whose interval contains the value"); }
+}
 // full validity against the continuous parent
 static void checkPartition(const DiscreteDistributionInterface& d, size_t n, bool median, const char* who) {
   checkNormalised(d, n, who);
@@ -105,11 +114,11 @@ extern "C" void verif_harness() {
   } else {
     // ---- compound and user-specified distributions: normalisation and cumulative consistency ----
     int kind = __sym_choose("kind", 0, 3);
-    if (kind == 0) { int n = __sym_choose("classes", 1, NCMAX); vector<double> v(n), p(n); double s = 0, x = symd("v0"); for (int i = 0; i < n; i++) { v[i] = x; x = x + sympos("gap" + to_string(i)) + 0.001; p[i] = sympos("w" + to_string(i)); s += p[i]; } for (auto& y : p) y = y / s;
-      SimpleDiscreteDistribution d(v, p); checkNormalised(d, n, "simple"); Vdouble c = d.getCategories(), q = d.getProbabilities(); for (int i = 0; i < n; i++) { SYM_ASSERT(c[i] == v[i], "user-specified class value changed"); SYM_ASSERT_EQ(q[i], p[i], "user-specified probability changed"); } }
+    if (kind == 0) { int n = __sym_choose("classes", 1, NCMAX); vector<double> v(n), p(n); double s = 0, x = symd("v0"); SYM_ASSUME(x > -1e6 && x < 1e6);   /* (values beyond the library's "infinite" 1.7e23 are outside) */ for (int i = 0; i < n; i++) { v[i] = x; { double g = sympos("gap" + to_string(i)); SYM_ASSUME(g < 1e6); x = x + g + 0.001; } p[i] = sympos("w" + to_string(i)); s += p[i]; } for (auto& y : p) y = y / s;
+      SimpleDiscreteDistribution d(v, p); checkNormalised(d, n, "simple"); checkLookups(d, n, "S"); Vdouble c = d.getCategories(), q = d.getProbabilities(); for (int i = 0; i < n; i++) { SYM_ASSERT(c[i] == v[i], "user-specified class value changed"); SYM_ASSERT_EQ(q[i], p[i], "user-specified probability changed"); } }
     else if (kind == 1) { double v = symd("value"); ConstantDistribution d(v); checkNormalised(d, 1, "constant"); SYM_ASSERT(d.getCategory(0) == v, "constant distribution has another value"); }
     else if (kind == 2) { double pinv = symd("pInvariant"); SYM_ASSUME(pinv > 0.001 && pinv < 0.999); int n = __sym_choose("classes", 1, NCMAX); double a = sympos("min"), w = sympos("width"); SYM_ASSUME(w > 0.001);
-      InvariantMixedDiscreteDistribution d(unique_ptr<DiscreteDistributionInterface>(new UniformDiscreteDistribution((unsigned)n, a, a + w)), pinv, 0.0); checkNormalised(d, n + 1, "invariant-mixed");
+      InvariantMixedDiscreteDistribution d(unique_ptr<DiscreteDistributionInterface>(new UniformDiscreteDistribution((unsigned)n, a, a + w)), pinv, 0.0); checkNormalised(d, n + 1, "invariant-mixed"); checkLookups(d, n + 1, "I");
       SYM_ASSERT(d.getCategory(0) == 0.0, "the invariant class is not the first class"); SYM_ASSERT_EQ(d.getProbability((size_t)0), pinv, "the invariant class does not carry the invariant proportion");
       UniformDiscreteDistribution u((unsigned)n, a, a + w); for (int i = 0; i < n; i++) { SYM_ASSERT_EQ(d.getCategory(i + 1), u.getCategory(i), "variable classes differ from the sub-distribution's"); SYM_ASSERT_EQ(d.getProbability((size_t)(i + 1)), (1 - pinv) * u.getProbability((size_t)i), "variable class probability is not (1-p) times the sub-distribution's"); } }
     else { int nc = __sym_choose("components", 2, 3); vector<int> ncl(nc); vector<double> lo(nc), wd(nc), wt(nc); double S = 0, x = sympos("min1");
@@ -123,7 +132,7 @@ extern "C" void verif_harness() {
       else if (op == 2) { ParameterList pl; for (int k = 1; k < nc; k++) { double t = symd("newTheta" + to_string(k)); SYM_ASSUME(t > 0.001 && t < 0.999); SYM_ASSUME(t - th[k - 1] > 1e-6 || th[k - 1] - t > 1e-6); pl.addParameter(Parameter("Mixture.theta" + to_string(k), t)); th[k - 1] = t; } d.matchParametersValues(pl); }
       else if (op == 4) { int nn = __sym_choose("newClasses", 1, 2); d.setNumberOfCategories((size_t)nn); for (int k = 0; k < nc; k++) ncl[k] = nn; }
       vector<double> w(nc); { double y = 1; for (int k = 0; k + 1 < nc; k++) { w[k] = th[k] * y; y *= 1 - th[k]; } w[nc - 1] = y; }
-      int tot = 0; for (int k = 0; k < nc; k++) tot += ncl[k]; checkNormalised(*D, tot, "mixture");
+      int tot = 0; for (int k = 0; k < nc; k++) tot += ncl[k]; checkNormalised(*D, tot, "mixture"); checkLookups(*D, tot, "M");
       for (int k = 0; k < nc; k++) SYM_ASSERT_EQ(D->getNProbability((size_t)k), w[k], "mixture: component weight is not the stick-breaking weight of the current parameters");
       int off = 0; for (int k = 0; k < nc; k++) { UniformDiscreteDistribution u((unsigned)ncl[k], lo[k], lo[k] + wd[k]);
         for (int i = 0; i < ncl[k]; i++) SYM_ASSERT_EQ(D->getProbability((size_t)(off + i)), w[k] * u.getProbability((size_t)i), "mixture: class probability is not weight times component probability"); off += ncl[k]; }
